@@ -4,6 +4,8 @@
 package main
 
 import (
+	"os"
+	"sort"
 	"context"
 	"errors"
 	"fmt"
@@ -443,6 +445,14 @@ func main() {
 			}
 		}
 		frontier = next
+	}
+	if f := os.Getenv("C18_DUMP"); f != "" {
+		var ks []string
+		for k := range seen {
+			ks = append(ks, k)
+		}
+		sort.Strings(ks)
+		os.WriteFile(f, []byte(strings.Join(ks, "\n")), 0644)
 	}
 	trans += defaultConstructors(r)
 	r.Cov["states"] = len(seen)
